@@ -114,6 +114,7 @@ type FuncFacts struct {
 	edgeIn  map[*ssa.BasicBlock][]*factState // per predecessor (same order as Preds): state carried by that edge
 	phiImpl map[*ssa.BasicBlock][]*factState // edge states of the first pass, used for flag implications
 	spillOf map[*ssa.Alloc]*ssa.Parameter    // value parameters spilled to a local that is never written again
+	mutated map[string]bool                  // canonical receivers on which the function calls a mutator
 	ids     map[ssa.Value]int
 	escaped map[*ssa.Alloc]bool
 	pure    func(*ssa.Function) bool
@@ -243,6 +244,12 @@ func (ff *FuncFacts) canon(s *factState, v ssa.Value) string {
 	case *ssa.MakeInterface:
 		return ff.canon(s, x.X)
 	case *ssa.Call:
+		if pureGetter(x) {
+			rn := ff.canon(s, x.Call.Value)
+			if !ff.mutated[rn] {
+				return "get:" + rn + "." + x.Call.Method.Name()
+			}
+		}
 		if f := x.Call.StaticCallee(); f != nil && isPurePredicate(f) {
 			var as []string
 			for _, a := range x.Call.Args {
@@ -294,6 +301,12 @@ func (ff *FuncFacts) assume(s *factState, cond ssa.Value, b bool) {
 		if x.Op == token.EQL || x.Op == token.NEQ {
 			eq := (x.Op == token.EQL) == b
 			l, r := x.X, x.Y
+			// the generated End() of every property returns the nil iterator: `iter != prop.End()` is a nil test
+			if isEndCall(r) {
+				r = ssa.NewConst(nil, r.Type())
+			} else if isEndCall(l) {
+				l = ssa.NewConst(nil, l.Type())
+			}
 			lc, lIsC := l.(*ssa.Const)
 			rc, rIsC := r.(*ssa.Const)
 			if lIsC && !rIsC {
@@ -304,6 +317,14 @@ func (ff *FuncFacts) assume(s *factState, cond ssa.Value, b bool) {
 				if rc.IsNil() {
 					if eq {
 						s.facts[fact{ff.canon(s, l), fNIL, ""}] = true
+						// streams.ToType returns a value whenever it returns a nil error
+						if ex, ok := l.(*ssa.Extract); ok && ex.Index == 1 {
+							if c, ok := ex.Tuple.(*ssa.Call); ok && staticName(c) == "streams.ToType" {
+								if v := extractOf(c, 0); v != nil {
+									s.facts[fact{ff.canon(s, v), fNONNIL, ""}] = true
+								}
+							}
+						}
 					} else {
 						s.facts[fact{ff.canon(s, l), fNONNIL, ""}] = true
 					}
@@ -372,7 +393,46 @@ func (ff *FuncFacts) step(s *factState, ins ssa.Instruction) {
 		}
 	case *ssa.Alloc:
 		delete(s.mem, x)
+	case *ssa.Call:
+		// constructors of package streams never return nil
+		if f := x.Call.StaticCallee(); f != nil && f.Pkg != nil && f.Pkg.Pkg.Path() == modPath+"/streams" && strings.HasPrefix(f.Name(), "New") && !strings.HasSuffix(f.Name(), "Resolver") {
+			s.facts[fact{ff.canon(s, x), fNONNIL, ""}] = true
+		}
 	}
+}
+
+func isEndCall(v ssa.Value) bool {
+	c, ok := v.(*ssa.Call)
+	return ok && c.Common().IsInvoke() && c.Common().Method.Name() == "End" && len(c.Common().Args) == 0
+}
+
+// isVocabIface: t is a named interface of streams/vocab (or pub's own
+// interfaces composed of vocab getters, such as Activity).
+func isVocabIface(t types.Type) bool {
+	n, ok := t.(*types.Named)
+	if !ok || n.Obj().Pkg() == nil {
+		return false
+	}
+	if _, ok := n.Underlying().(*types.Interface); !ok {
+		return false
+	}
+	pp := n.Obj().Pkg().Path()
+	if strings.HasSuffix(pp, "/streams/vocab") {
+		return true
+	}
+	return pp == modPath+"/pub" && !appInterfaces[n.Obj().Name()]
+}
+
+// pureGetter: a zero-argument Get*/Is*/Len invoke on a vocab value. Two such
+// calls on the same receiver denote the same value as long as the function
+// never mutates that receiver (checked by receiverMutated).
+func pureGetter(c *ssa.Call) bool {
+	cc := c.Common()
+	if !cc.IsInvoke() || len(cc.Args) != 0 || !isVocabIface(cc.Value.Type()) {
+		return false
+	}
+	n := cc.Method.Name()
+	return strings.HasPrefix(n, "Get") || strings.HasPrefix(n, "Is") || n == "Len"
 }
 
 var factsCache = map[*ssa.Function]*FuncFacts{}
@@ -418,6 +478,21 @@ func computeFactsUncached(fn *ssa.Function) *FuncFacts {
 			if st, ok := ins.(*ssa.Store); ok {
 				if fa, ok := st.Addr.(*ssa.FieldAddr); ok {
 					ff.fieldStored[fa.X.Type().String()+"#"+fmt.Sprint(fa.Field)] = true
+				}
+			}
+		}
+	}
+	// receivers the function mutates (their getters are not stable)
+	ff.mutated = map[string]bool{}
+	{
+		tmp := newFactState()
+		for _, b := range fn.Blocks {
+			for _, ins := range b.Instrs {
+				if ci, ok := ins.(ssa.CallInstruction); ok && ci.Common().IsInvoke() {
+					m := ci.Common().Method.Name()
+					if hasPrefixAny(m, "Set", "Append", "Prepend", "Insert") || m == "Remove" || m == "Swap" || m == "Clear" {
+						ff.mutated[ff.canon(tmp, ci.Common().Value)] = true
+					}
 				}
 			}
 		}
